@@ -44,7 +44,7 @@ static const char *CTN[CT_COUNT] = {
     "fault_delivery_short", "fault_delivery_zero", "delivery_full",
     "fault_os_eintr", "fault_os_eagain", "fault_os_permanent", "os_success", "fault_os_open_fail", "fault_os_short_read",
     "fault_os_stale_errno_on_success", "fault_os_scribble_on_failure", "fault_dirty_object_memory", "fault_abandon_midway",
-    "fault_free_injected", "fault_alloc_fail_runs", "fault_stack_paint", "fault_os_echo_delivery", "fault_sleep_interrupted", "simulated_sleeps", "simulated_clock_reads", "fault_fork_identity_change", "fault_boundary_address_placement", "nested_generator_draws",
+    "fault_free_injected", "fault_alloc_fail_runs", "fault_stack_paint", "fault_os_echo_delivery", "fault_sleep_interrupted", "simulated_sleeps", "simulated_clock_reads", "fault_fork_identity_change", "fault_boundary_address_placement", "nested_generator_draws", "fault_object_moved_by_caller", "fault_wall_clock_jump", "calls_through_c_caller_with_opaque_handles",
     "probe_hash_topup_and_continue", "probe_hash_topup_exact", "probe_hash_topup_short", "probe_hash_empty_update", "probe_hash_null_update",
     "probe_hash_finalize_checked", "probe_hash_reinit_mid_message", "probe_hash_init_after_free", "probe_hash_init_after_finalize",
     "probe_hmac_key_empty", "probe_hmac_key_lt64", "probe_hmac_key_eq64", "probe_hmac_key_gt64", "probe_hmac_finalize_checked", "probe_hmac_oneshot_checked",
@@ -135,6 +135,7 @@ Json plan_to_json(const Plan &p) {
     k.set("os_echo", p.os_echo);
     k.set("sleep_interrupt", p.sleep_interrupt);
     k.set("clock_step_ns", (unsigned long long)p.clock_step_ns);
+    k.set("clock_jump_s", (long long)p.clock_jump_s);
     j.set("knobs", k);
     Json ts = Json::arr();
     for (auto &t : p.tasks) {
@@ -166,6 +167,7 @@ bool plan_from_json(const Json &j, Plan &p) {
     p.os_echo = k.at("os_echo").as_b();
     p.sleep_interrupt = k.at("sleep_interrupt").as_b();
     p.clock_step_ns = k.at("clock_step_ns").as_u();
+    p.clock_jump_s = k.has("clock_jump_s") ? (int64_t)k.at("clock_jump_s").as_i() : 0;
     for (auto &t : j.at("tasks").a) {
         TaskPlan tp;
         for (auto &o : t.a) tp.ops.push_back(op_from_json(o));
@@ -178,6 +180,7 @@ uint64_t plan_shape_hash(const Plan &p) {
     uint64_t h = hash_bytes((const uint8_t *)p.engine.data(), p.engine.size());
     h = mix2(h, p.switch_permille); h = mix2(h, p.site_mask); h = mix2(h, p.tasks.size());
     h = mix2(h, (p.os_stale_errno ? 1 : 0) | (p.os_scribble ? 2 : 0) | (p.alloc_fail ? 4 : 0) | (p.os_echo ? 8 : 0) | (p.sleep_interrupt ? 16 : 0) | (p.clock_step_ns << 8));
+    h = mix2(h, (uint64_t)p.clock_jump_s);
     for (auto &t : p.tasks) {
         h = mix2(h, 0xABCD);
         for (auto &o : t.ops) {
